@@ -78,8 +78,82 @@ func hostileJournalProgram(r *rng.R) []byte {
 	return b.Bytes()
 }
 
+// depthLimitProgram: a frame calls itself with all gas (so the chain reaches the call depth limit), then tries
+// a CREATE/CREATE2 and a CALL of its own — which are refused in the deepest frames — with a journal
+// instruction and a value-less call before and after.
+func depthLimitProgram(r *rng.R, self, other common.Address, fi int) []byte {
+	b := asm.New()
+	kind := r.Intn(4)
+	if kind == 2 && fi < 1 || kind == 3 && fi < 4 {
+		kind = 0
+	}
+	b.Push(0).Push(0).Push(0).Push(0)
+	if kind == 0 || kind == 1 {
+		b.Push(0)
+	}
+	b.PushAddr(self).Op(asm.GAS).Op([]byte{asm.CALL, asm.CALLCODE, asm.DELEGATECALL, asm.STATICCALL}[kind]).Op(asm.POP)
+	init := []byte{0x00}
+	for i := 0; i < 1+r.Intn(2); i++ {
+		switch r.Intn(3) {
+		case 0:
+			b.MstoreBytes(0x200, init).Push(1).Push(0x200).Push(uint64(r.Intn(2))).Op(asm.CREATE).Op(asm.POP)
+		case 1:
+			if fi >= 5 {
+				b.MstoreBytes(0x200, init).Push(uint64(r.Intn(1 << 30))).Push(1).Push(0x200).Push(0).Op(asm.CREATE2).Op(asm.POP)
+			}
+		default:
+			b.Push(0).Push(0).Push(0).Push(0).Push(0).PushAddr(other).Push(20000).Op(asm.CALL).Op(asm.POP)
+		}
+	}
+	b.Op(asm.STOP)
+	return b.Bytes()
+}
+
+// treeStructure checks the call tree's own accessors against each other.
+func treeStructure(t *vm.CallTree) []string {
+	var bad []string
+	n := 0
+	for ; t.FindCall(uint64(n)) != nil; n++ {
+	}
+	seen := map[uint64]int{}
+	for i := 0; i < n && len(bad) < 4; i++ {
+		c := t.FindCall(uint64(i))
+		if c.Index != uint64(i) {
+			bad = append(bad, fmt.Sprintf("C07: FindCall(%d) returns the node with index %d", i, c.Index))
+		}
+		if p := t.ParentOf(uint64(i)); p != c.Parent {
+			bad = append(bad, fmt.Sprintf("C07: ParentOf(%d) and the node's parent differ", i))
+		}
+		if c.Parent != nil && c.Parent.Index >= uint64(i) {
+			bad = append(bad, fmt.Sprintf("C07: node %d has parent %d (not entered before it)", i, c.Parent.Index))
+		}
+		last := int64(-1)
+		for _, ch := range t.ChildrenOf(uint64(i)) {
+			seen[ch.Index]++
+			if int64(ch.Index) <= last {
+				bad = append(bad, fmt.Sprintf("C07: children of node %d are not in entry order", i))
+			}
+			last = int64(ch.Index)
+			if ch.Parent == nil || ch.Parent.Index != uint64(i) {
+				bad = append(bad, fmt.Sprintf("C07: node %d is listed as a child of %d but its parent is another node", ch.Index, i))
+			}
+		}
+	}
+	for i := 0; i < n && len(bad) < 4; i++ {
+		c := t.FindCall(uint64(i))
+		if c.Parent != nil && seen[uint64(i)] != 1 {
+			bad = append(bad, fmt.Sprintf("C07: node %d occurs %d times in its parent's children", i, seen[uint64(i)]))
+		}
+		if c.Parent == nil && seen[uint64(i)] != 0 {
+			bad = append(bad, fmt.Sprintf("C07: root node %d is listed as somebody's child", i))
+		}
+	}
+	return bad
+}
+
 func cmdFuzzCrash(args []string) error {
 	c := newCommon("fuzzcrash")
+	only := c.fs.String("class", "", "run only this class of programs")
 	c.fs.Parse(args)
 	r := rng.New(c.seed)
 	u := progen.DefaultUniverse()
@@ -114,6 +188,18 @@ func cmdFuzzCrash(args []string) error {
 		default:
 			cs.Class = "programs"
 		}
+		if i%25 == 7 {
+			cs.Class = "depth-limit"
+		}
+		if *only != "" {
+			cs.Class = *only
+		}
+		if cs.Class == "depth-limit" {
+			cs.Gas = 1 << 50
+			if cs.Entry >= 4 {
+				cs.Entry = 0
+			}
+		}
 		for k, a := range u.Contracts {
 			var code []byte
 			switch cs.Class {
@@ -133,6 +219,12 @@ func cmdFuzzCrash(args []string) error {
 				}
 			case "malformed":
 				code = progen.Malformed(rr, u, opts)
+			case "depth-limit":
+				if k == 0 {
+					code = depthLimitProgram(rr, a, u.Contracts[1], fi)
+				} else {
+					code = []byte{0x00}
+				}
 			default:
 				code = progen.Program(rr, u, opts)
 			}
@@ -192,6 +284,11 @@ func cmdFuzzCrash(args []string) error {
 		if pan == "" {
 			if cur := env.EVM.Tracer().CallTree().Current(); cur != nil {
 				cs.Oracle = append(cs.Oracle, fmt.Sprintf("C03: call %d left open after the entry point returned", cur.Index))
+				cs.Oracle = append(cs.Oracle, fmt.Sprintf("C07: call %d left open after the entry point returned", cur.Index))
+			}
+			cs.Oracle = append(cs.Oracle, treeStructure(env.EVM.Tracer().CallTree())...)
+			nBefore := 0
+			for ; env.EVM.Tracer().CallTree().FindCall(uint64(nBefore)) != nil; nBefore++ {
 			}
 			before := len(rec.Events)
 			pan2 := impl.Guard(func() {
@@ -201,6 +298,8 @@ func cmdFuzzCrash(args []string) error {
 				cs.Oracle = append(cs.Oracle, "C03: follow-up call panicked: "+pan2)
 			} else if len(rec.Events) <= before || rec.Events[before].Kind != "start" {
 				cs.Oracle = append(cs.Oracle, "C03: a follow-up top-level call was not announced as a depth-0 start (call depth not back to rest)")
+			} else if nc := env.EVM.Tracer().CallTree().FindCall(uint64(nBefore)); nc == nil || nc.Parent != nil {
+				cs.Oracle = append(cs.Oracle, "C07: a follow-up top-level call is not recorded as a new parentless node")
 			}
 		}
 		cs.Steps = len(rec.Events)
